@@ -218,8 +218,11 @@ class BO(Conversions):
         """
         super().__setitem__(key, value)
 
+        # only label the elements that actually became variables of the
+        # model; a zero value or a squashed away label (eg the ``a`` in the
+        # spin key ``('a', 'a')``) does not create a variable.
         for i in key:
-            if i not in self._mapping:
+            if i not in self._mapping and i in self._variables:
                 self._mapping[i] = self._next_label
                 self._reverse_mapping[self._next_label] = i
                 self._next_label += 1
